@@ -75,15 +75,20 @@ Ltac cmp x t := destruct (Nat.eq_dec x t) as [?E|?N]; [subst; rewrite ?upd_same 
 Lemma cnt_cons : forall l t x, cnt (x :: l) t = (if Nat.eq_dec x t then 1 else 0) + cnt l t.
 Proof. intros. unfold cnt. simpl. destruct (Nat.eq_dec x t); reflexivity. Qed.
 
+Inductive Mark (o : nat) : Prop := mk_mark.
 Ltac sat I t :=
-  pose proof (i_local _ I t) as L1; pose proof (i_owner _ I t) as L2; pose proof (i_pc_setup _ I t) as L3;
-  pose proof (i_pc_store _ I t) as L4; pose proof (i_pc_app _ I t) as L5; pose proof (i_objs1 _ I t) as L6;
-  pose proof (fun o => i_objs2 _ I t o) as L7; pose proof (i_calls _ I t) as L8.
+  pose proof (i_pc_setup _ I t) as L3; pose proof (i_calls _ I t) as L8;
+  repeat match goal with
+  | o : obj |- _ =>
+      lazymatch goal with _ : Mark o |- _ => fail | _ => idtac end;
+      pose proof (mk_mark o);
+      pose proof (i_local _ I t o); pose proof (i_owner _ I t o); pose proof (i_pc_store _ I t o);
+      pose proof (i_pc_app _ I t o); pose proof (i_objs1 _ I t o); pose proof (i_objs2 _ I t o)
+  end.
 
 Ltac close I t Hpc :=
   sat I t; unfold in_flight in *; rewrite ?Hpc in *;
-  try solve [intuition (try congruence; try discriminate; eauto)];
-  try solve [firstorder (try congruence; try discriminate)].
+  try solve [intuition (try congruence; try discriminate; eauto)].
 
 Ltac cntgoal I x :=
   solve [ pose proof (i_calls _ I x); unfold cnt in *; simpl in *;
